@@ -27,7 +27,7 @@ BOUNDS = {"quick": {"vertices": 3, "links": 2}, "thorough": {"vertices": 3, "lin
 TIME_BUDGET = {"quick": 420, "thorough": 1200}
 STUBS = ["call-backs -> uninterpreted functions raising HarnessFault at a symbolic invocation index",
          "pyvis.network.Network -> validated model", "re / datetime -> executed natively on concrete arguments"]
-ASSUMPTIONS = ["call-backs do not mutate the graph themselves", "faults are Exception subclasses"]
+ASSUMPTIONS = ["call-backs do not mutate the graph themselves"]
 EXPLANATION = "snapshot equality around fault-free and faulty calls; repeatability; cache coherence afterwards"
 
 
@@ -42,6 +42,9 @@ def configs(tier):
                         "graph": "fixed" if (heavy and tier == "quick") else "symbolic"})
             if heavy and tier != "quick":
                 out[-1]["classes"] = ["DE", "UE"]
+    # a link that lost one end through the one-sided API (b.remove_from_link(e)): queries may raise, nothing may change
+    for e in ("neighbors", "find_links", "bft", "searches", "basic_render", "plantuml", "pyvis"):
+        out.append({"entry": e, "callback": "none", "classes": ["DE", "UE"], "graph": "halfopen"})
     if tier != "quick":
         for e in ("neighbors", "bft", "basic_render", "pyvis"):
             out.append({"entry": e, "callback": {"neighbors": "ff", "bft": "via", "basic_render": "sort", "pyvis": "rvfunc"}[e],
@@ -112,7 +115,9 @@ def call(cb):
                 return netview(make_pyvis_net(U, rvfunc=cb)), None
             return netview(make_pyvis_net(U, refunc=cb)), None
         return netview(pyvis_render_customizable(U, refunc=cb)), None
-    except Exception as exc:
+    except BaseException as exc:
+        if type(exc).__name__ == "HarnessError":
+            raise
         return None, type(exc).__name__
 
 Vertex.NEIGHBOR_CACHING = caching
@@ -123,7 +128,7 @@ faulty = call(cb_fault)
 s2 = snap()
 again = call(cb_ok)
 s3 = snap()
-fault_seen = faulty[1] == "HarnessFault"
+fault_seen = (faulty[1] == "HarnessFault") or (faulty[1] == "HarnessInterrupt")
 clean_ok = (s1 == s0)
 fault_ok = (s2 == s0) and (s3 == s0)
 again_ok = (again == base)
@@ -147,7 +152,11 @@ def scenario(B, p):
     verts = make_vertices(B, 3)
     links = make_links(B, p["classes"])
     n = len(links)
-    if p.get("graph") == "fixed":
+    if p.get("graph") == "halfopen":
+        # e0 joins a and the symbolic x; e1 = (b, y) lost its second end: b.remove_from... on the far side
+        B.run("l.v1 = a\nl.v2 = x\nm.v1 = b\nm.v2 = y\ny.remove_from_link(m)",
+              {"l": links[0], "m": links[1], "a": verts[0], "b": verts[1], "x": B.ref("x", verts), "y": B.ref("y", [verts[0], verts[2]])})
+    elif p.get("graph") == "fixed":
         # one fixed shape (a cycle a -> b -- c -> a ...): the quantifier of interest here is the fault point
         for i, l in enumerate(links):
             B.run("l.v1 = x\nl.v2 = y", {"l": l, "x": verts[i % 3], "y": verts[(i + 1) % 3]})
@@ -189,7 +198,9 @@ def scenario(B, p):
             ret, doms = "str", [links]
         if cbk == "sort":
             ret = "int"
-        cb_fault = B.uf("cb", doms, ret, fault=True)
+        # the fault is an Exception subclass or a BaseException that is not one (KeyboardInterrupt-like)
+        fcls = ["HarnessFault", "HarnessInterrupt"][B.choice("fault_class", 2)]
+        cb_fault = B.uf("cb", doms, ret, fault=True, fault_cls=fcls)
         cb_ok = B.uf_twin(cb_fault)
         if ret == "str":
             for x in doms[0]:
